@@ -1289,11 +1289,11 @@ Proof.
 Qed.
 
 Lemma used_in_suite_In : forall inh s incl y, In y (get_fixtures_used_in_suite inh s incl) <->
-  (has_enabled_tests inh s || incl = true) /\
+  (has_enabled_tests inh s || (incl && has_tests s) = true) /\
   (In y (suite_fixtures s) \/ exists t, In t (su_tests s) /\ (test_enabled (inh || su_disabled s) t || incl = true) /\ In y (test_fixtures t)).
 Proof.
   intros inh s incl y. unfold get_fixtures_used_in_suite.
-  destruct (has_enabled_tests inh s) eqn:E1; destruct incl eqn:E2; simpl;
+  destruct (has_enabled_tests inh s) eqn:E1; destruct (incl && has_tests s) eqn:E2; simpl;
     try (rewrite used_tests_fold_In; split; [intros H; split; [reflexivity | exact H] | intros [_ H]; exact H]).
   split; [intros [] | intros [H _]; discriminate].
 Qed.
@@ -1420,21 +1420,21 @@ Section DryRun.
     destruct (level_spec reg direct_s ScSuite Hok Hdreg) as [fxs [Hsched Hfacts]].
     change (dry_run_suite reg fd c1 inh s) with
       (bind (get_fixtures_scheduled_for_suite reg inh s fd) (fun fxs =>
-       bind (if has_enabled_tests inh s || fd then
+       bind (if has_enabled_tests inh s || (fd && has_tests s) then
                bind (setup_all (new_level fxs :: c1)) (fun c =>
                bind (get_fixture_results c (oset_update [] inj)) (fun _ =>
                bind (get_fixture_results c (match h_setup_suite hk with Some (args, _) => args | None => [] end)) (fun _ =>
                Ok c)))
              else Ok (new_level fxs :: c1)) (fun c =>
        bind (for_each (fun t => if test_enabled (inh || d) t || fd then dry_run_test reg c t else Ok tt) ts) (fun _ =>
-       bind (if has_enabled_tests inh s || fd then bind (teardown_all c) (fun _ => Ok tt) else Ok tt) (fun _ =>
+       bind (if has_enabled_tests inh s || (fd && has_tests s) then bind (teardown_all c) (fun _ => Ok tt) else Ok tt) (fun _ =>
        for_each (dry_run_suite reg fd c1 (inh || d)) subs))))).
     unfold get_fixtures_scheduled_for_suite. fold direct_s. rewrite Hsched. cbn [bind].
     assert (Hsubs : for_each (dry_run_suite reg fd c1 (inh || d)) subs = Ok tt).
     { apply for_each_ok. intros sub Hsub. apply (IH sub Hsub).
       - intros s' Hs'. apply Huses. simpl. right. apply in_flat_map. exists sub. auto.
       - intros f Hf. apply HD0. apply (used_rec_sub inh s fd sub f Hsub). exact Hf. }
-    destruct (has_enabled_tests inh s || fd) eqn:Hen.
+    destruct (has_enabled_tests inh s || (fd && has_tests s)) eqn:Hen.
     - destruct (level_setup_ok _ _ _ _ _ Hok Hfacts Hfull1 (covers_c1 direct_s HsD)) as [rs [Hsetup Hfull']].
       fold c1 in Hsetup. rewrite Hsetup. cbn [bind].
       assert (Hlook : forall f, In f (suite_fixtures s) -> exists v, get_fixture_result ((fxs, rs) :: c1) f = Ok v).
@@ -1458,7 +1458,9 @@ Section DryRun.
     - cbn [bind].
       assert (Htests : for_each (fun t => if test_enabled (inh || d) t || fd then dry_run_test reg (new_level fxs :: c1) t else Ok tt) ts = Ok tt).
       { apply for_each_ok. intros t Ht. apply orb_false_iff in Hen. destruct Hen as [Hen1 Hen2].
-        pose proof (has_enabled_false inh s t Hen1 Ht) as Hdis. simpl in Hdis. rewrite Hdis, Hen2. reflexivity. }
+        pose proof (has_enabled_false inh s t Hen1 Ht) as Hdis. simpl in Hdis. rewrite Hdis.
+        assert (Hht : has_tests s = true) by (unfold has_tests, s; simpl; destruct ts; [destruct Ht | reflexivity]).
+        rewrite Hht, andb_true_r in Hen2. rewrite Hen2. reflexivity. }
       rewrite Htests. cbn [bind]. exact Hsubs.
   Qed.
 End DryRun.
